@@ -74,10 +74,23 @@ theorem rowRaw_pre_eq (ct : Coltype) (s : Sig) (loc : Nat) :
   cases ct <;> simp [rowRaw, Gen.rowKeyOf, Gen.sigAttrOf, sigAttr, mkRow, preOf, Gen.preprocessOf, applyPre,
     applyOps, applyOp, take_take_same]
 
+/-- the same under whatever preprocessing the picklist carries (an identity override only exists for tuple column types,
+    where row and signature hand over the same (name, md5) pair) -/
+theorem rowRaw_pre_eq' (pl : Picklist) (s : Sig) (loc : Nat) :
+    applyPre pl.pre (rowRaw pl.coltype (mkRow s loc)) = applyPre pl.pre (sigAttr pl.coltype s) := by
+  unfold Picklist.pre
+  by_cases h : (pl.exactRows && pl.coltype.isMeta) = true
+  · rw [if_pos h]
+    have hm : pl.coltype.isMeta = true := (Bool.and_eq_true _ _ ▸ h).2
+    cases hc : pl.coltype <;> simp [hc, Gen.Coltype.isMeta] at hm <;>
+      simp [rowRaw, Gen.rowKeyOf, Gen.sigAttrOf, sigAttr, mkRow]
+  · rw [if_neg h]
+    exact rowRaw_pre_eq pl.coltype s loc
+
 /-- either variant: whenever the row path produces a value at all, it is the value of the signature path -/
 theorem rowValueWith_eq_sig {a : Bool} {ct : Coltype} {s : Sig} {loc : Nat} {v : PVal}
     (h : rowValueWith a ct (mkRow s loc) = .ok v) : v = applyPre (preOf ct) (sigAttr ct s) := by
-  unfold rowValueWith at h
+  unfold rowValueWith rowValueP at h
   by_cases hc : (a && !(rowRaw ct (mkRow s loc)).truthy) = true
   · rw [if_pos hc] at h; cases h
   · rw [if_neg hc] at h
@@ -93,7 +106,7 @@ theorem rowValueWith_error_iff (a : Bool) (ct : Coltype) (s : Sig) (loc : Nat) :
          | .md5 => s.md5 = []
          | .md5short => s.md5.take 8 = []
          | .name => s.name = []) := by
-  unfold rowValueWith
+  unfold rowValueWith rowValueP
   by_cases hc : (a && !(rowRaw ct (mkRow s loc)).truthy) = true
   · rw [if_pos hc]
     simp only [Bool.and_eq_true] at hc
@@ -114,18 +127,22 @@ theorem rowValueWith_error_iff (a : Bool) (ct : Coltype) (s : Sig) (loc : Nat) :
       cases ct <;> simp [rowRaw, Gen.rowKeyOf, mkRow, PVal.truthy] at hm ⊢ <;> exact hm
 
 /-- the current source (no `assert q`): the row path never raises … -/
-theorem rowValue_total (ct : Coltype) (r : Row) : rowValue ct r = .ok (applyPre (preOf ct) (rowRaw ct r)) := by
-  simp [rowValue, rowValueWith, Gen.rowValueAsserts]
+theorem rowValueP_total (pre : PreFn) (ct : Coltype) (r : Row) :
+    rowValueP Gen.rowValueAsserts pre ct r = .ok (applyPre pre (rowRaw ct r)) := by
+  simp [rowValueP, Gen.rowValueAsserts]
+
+theorem rowValue_total (ct : Coltype) (r : Row) : rowValue ct r = .ok (applyPre (preOf ct) (rowRaw ct r)) :=
+  rowValueP_total _ ct r
 
 /-- … and answers what the signature path answers, for every signature, named or not -/
 theorem matchesRow_total (pl : Picklist) (s : Sig) (loc : Nat) :
     pl.matchesRow (mkRow s loc) = .ok (pl.hasSig s) := by
   unfold Picklist.matchesRow Picklist.hasSig
-  rw [rowValue_total, rowRaw_pre_eq]
+  rw [rowValueP_total, rowRaw_pre_eq']
 
 theorem matchesRow_ok (pl : Picklist) (r : Row) : ∃ b, pl.matchesRow r = .ok b := by
   unfold Picklist.matchesRow
-  rw [rowValue_total]
+  rw [rowValueP_total]
   exact ⟨_, rfl⟩
 
 /-! ### the manifest row filter against `Sat` -/
